@@ -43,20 +43,22 @@ Proof.
   exact H.
 Qed.
 
-(** Every vector of [col_abs]: 2^10 = 1 024. *)
+(** Every vector of [col_abs]: 2^12 = 4 096. *)
 Definition all_col (f : col_abs -> bool) : bool :=
   allb (fun b1 => allb (fun b2 => allb (fun b3 => allb (fun b4 => allb (fun b5 =>
   allb (fun b6 => allb (fun b7 => allb (fun b8 => allb (fun b9 => allb (fun b10 =>
-    f (Build_col_abs b1 b2 b3 b4 b5 b6 b7 b8 b9 b10))))))))))).
+  allb (fun b11 => allb (fun b12 =>
+    f (Build_col_abs b1 b2 b3 b4 b5 b6 b7 b8 b9 b10 b11 b12))))))))))))).
 
 Lemma all_col_spec f : all_col f = true -> forall a, f a = true.
 Proof.
-  intros H [b1 b2 b3 b4 b5 b6 b7 b8 b9 b10]. unfold all_col in H.
+  intros H [b1 b2 b3 b4 b5 b6 b7 b8 b9 b10 b11 b12]. unfold all_col in H.
   apply allb_spec with (b := b1) in H. apply allb_spec with (b := b2) in H.
   apply allb_spec with (b := b3) in H. apply allb_spec with (b := b4) in H.
   apply allb_spec with (b := b5) in H. apply allb_spec with (b := b6) in H.
   apply allb_spec with (b := b7) in H. apply allb_spec with (b := b8) in H.
   apply allb_spec with (b := b9) in H. apply allb_spec with (b := b10) in H.
+  apply allb_spec with (b := b11) in H. apply allb_spec with (b := b12) in H.
   exact H.
 Qed.
 
@@ -74,7 +76,8 @@ Proof. destruct a, b; cbn; split; intro H; try reflexivity; discriminate. Qed.
 Definition col_rule (a : col_abs) : bool :=
   implb (column_copyable_abs a)
         (a_file a && negb (a_src_encrypted a) && negb (a_dst_enc_key a) && a_type_eq a && a_codec_eq a
-         && implb (a_dst_filter a) (a_bloom_ok a) && a_column_index a && a_offset_index a && a_stats_ok a).
+         && implb (a_dst_filter a) (a_bloom_ok a) && a_column_index a && a_offset_index a && a_stats_ok a
+         && implb (a_dict_limit a) (a_dict_fits a)).
 
 Lemma col_rule_all : all_col col_rule = true.
 Proof. vm_compute. reflexivity. Qed.
@@ -82,7 +85,8 @@ Proof. vm_compute. reflexivity. Qed.
 (* the converse: the conditions are exactly these *)
 Definition col_rule_conv (a : col_abs) : bool :=
   implb (a_file a && negb (a_src_encrypted a) && negb (a_dst_enc_key a) && a_type_eq a && a_codec_eq a
-         && implb (a_dst_filter a) (a_bloom_ok a) && a_column_index a && a_offset_index a && a_stats_ok a)
+         && implb (a_dst_filter a) (a_bloom_ok a) && a_column_index a && a_offset_index a && a_stats_ok a
+         && implb (a_dict_limit a) (a_dict_fits a))
         (column_copyable_abs a).
 
 Lemma col_rule_conv_all : all_col col_rule_conv = true.
@@ -145,7 +149,11 @@ Definition bloom_equivalent (c : col) : Prop :=
   c_src_bloom_offset c = true /\ c_src_bloom_length c = true /\
   (c_dst_bloom_codec c = None \/ c_dst_bloom_codec c = Some 0%N) /\
   c_src_bloom_header_ok c = true /\ c_src_bloom_split_block c = true /\ c_src_bloom_xxhash c = true /\
-  c_src_bloom_uncompressed c = true /\ c_src_bloom_num_bytes c = c_dst_filter_size c.
+  c_src_bloom_uncompressed c = true /\
+  (* the size the destination would build: from the dictionary for a dictionary column *)
+  (c_dst_dict c = false -> c_src_bloom_num_bytes c = c_dst_filter_size c) /\
+  (c_dst_dict c = true -> c_src_dict_page c = true /\ c_src_dict_header_ok c = true /\
+                          c_src_bloom_num_bytes c = c_dst_filter_size_dict c).
 
 Lemma bloom_filter_is_copyable_sound (c : col) :
   bloom_filter_is_copyable c = true -> bloom_equivalent c.
@@ -156,10 +164,26 @@ Proof.
   - destruct (N.eqb k 0) eqn:Ek; cbn; [|discriminate]. apply N.eqb_eq in Ek. subst k.
     destruct (c_src_bloom_header_ok c), (c_src_bloom_split_block c), (c_src_bloom_xxhash c),
       (c_src_bloom_uncompressed c); cbn; try discriminate.
-    intro H. apply N.eqb_eq in H. repeat split; auto.
+    destruct (c_dst_dict c); [destruct (c_src_dict_page c), (c_src_dict_header_ok c); cbn; try discriminate|];
+      intro H; apply N.eqb_eq in H; repeat split; auto; discriminate.
   - destruct (c_src_bloom_header_ok c), (c_src_bloom_split_block c), (c_src_bloom_xxhash c),
       (c_src_bloom_uncompressed c); cbn; try discriminate.
-    intro H. apply N.eqb_eq in H. repeat split; auto.
+    destruct (c_dst_dict c); [destruct (c_src_dict_page c), (c_src_dict_header_ok c); cbn; try discriminate|];
+      intro H; apply N.eqb_eq in H; repeat split; auto; discriminate.
+Qed.
+
+(** * Dictionary size limit *)
+
+Definition dictionary_fits (c : col) : Prop :=
+  c_src_dict_page c = true /\ c_src_dict_header_ok c = true /\
+  (c_src_dict_uncompressed c <= c_dst_dict_max c)%N.
+
+Lemma dictionary_fits_limit_sound (c : col) :
+  dictionary_fits_limit c = true -> dictionary_fits c.
+Proof.
+  unfold dictionary_fits_limit, dictionary_fits.
+  destruct (c_src_dict_page c), (c_src_dict_header_ok c); cbn; try discriminate.
+  intro H. apply N.leb_le in H. repeat split; auto.
 Qed.
 
 (** * One column: copyable implies every setting that shapes its bytes agrees *)
@@ -173,7 +197,8 @@ Definition column_settings_equal (c : col) : Prop :=
   c_src_column_index c = true /\ c_src_offset_index c = true /\
   c_src_encoding_stats c <> [] /\
   Forall (page_ok (c_dst_page_type c) (c_dst_encoding c) (c_dst_dict c)) (c_src_encoding_stats c) /\
-  c_dst_dict c = existsb is_dict (c_src_encoding_stats c).
+  c_dst_dict c = existsb is_dict (c_src_encoding_stats c) /\
+  (c_dst_dict c = true -> (0 < c_dst_dict_max c)%N -> dictionary_fits c).
 
 Lemma column_copyable_sound (c : col) : column_copyable c = true -> column_settings_equal c.
 Proof.
@@ -182,7 +207,7 @@ Proof.
   rewrite H in R. cbn [implb] in R.
   repeat (apply andb_true_iff in R; destruct R as [R ?]).
   cbn [col_abs_of a_file a_src_encrypted a_dst_enc_key a_type_eq a_codec_eq a_dst_filter a_bloom_ok
-       a_column_index a_offset_index a_stats_ok] in *.
+       a_column_index a_offset_index a_stats_ok a_dict_limit a_dict_fits] in *.
   match goal with Hs : encoding_stats_match c = true |- _ =>
     destruct (encoding_stats_match_sound c Hs) as (S1 & S2 & S3) end.
   unfold column_settings_equal. repeat match goal with |- _ /\ _ => split end; auto.
@@ -193,6 +218,9 @@ Proof.
   - now apply N.eqb_eq.
   - intro Hf. apply bloom_filter_is_copyable_sound.
     match goal with Hi : implb (c_dst_filter c) _ = true |- _ => rewrite Hf in Hi; exact Hi end.
+  - intros Hd Hm. apply dictionary_fits_limit_sound.
+    match goal with Hi : implb (c_dst_dict c && _) _ = true |- _ =>
+      rewrite Hd in Hi; apply N.ltb_lt in Hm; rewrite Hm in Hi; exact Hi end.
 Qed.
 
 (** * The concrete decision is the cascade over the finite record *)
